@@ -361,7 +361,8 @@ def _check(prop, tier, seed, args, t0):
             functions_under_contract=functions,
             units=len(results), paths=sum(r['paths'] for r in results),
             solver_obligations=solver_count, solver_time_s={k: round(v, 2) for k, v in solver_time.items()},
-            evaluations=n_wit, distinct_nontrivial=len(distinct),
+            evaluations=n_wit + sum(int(b.get('evaluations', 0)) for b in bounded_res),
+            distinct_nontrivial=len(distinct) + sum(int(b.get('distinct_nontrivial', 0)) for b in bounded_res),
             rule='evaluations = path witnesses (one concrete input per enumerated symbolic path, from a model of the '
                  'path condition) plus contract samples, each run through the REAL function under /venv/bin/python '
                  'with the contract evaluated at run time; distinct = distinct (function, config, input) triples',
